@@ -20,7 +20,8 @@ InRangeAct == last' = [op |-> "timeInRange", a |-> cur, out |-> Ok(TimeFieldsInR
 AddAct(b) == LET o == DurAdd(cur, b) IN last' = [op |-> "add", a |-> cur, b |-> b, out |-> o] /\ cur' = Move(o)
 SubAct(b) == LET o == DurSub(cur, b) IN last' = [op |-> "subtract", a |-> cur, b |-> b, out |-> o] /\ cur' = Move(o)
 CmpAct(b) == last' = [op |-> "compare", a |-> cur, b |-> b, out |-> DurCompare(cur, b)] /\ cur' = cur
-RoundAct(o) == LET r == DurRound(cur, o.lg, o.sm, o.inc, o.mode)
+\* (largest unit "absent": the call leaves it out - the larger of the duration's own largest unit and the smallest unit)
+RoundAct(o) == LET r == DurRound(cur, IF o.lg = "absent" THEN UnitMax(DefaultLargest(cur), o.sm) ELSE o.lg, o.sm, o.inc, o.mode)
                IN last' = [op |-> "round", a |-> cur, o |-> o, out |-> r] /\ cur' = Move(r)
 TotalAct(u) == last' = [op |-> "total", a |-> cur, u |-> u, out |-> DurTotal(cur, u)] /\ cur' = cur
 Next == /\ (OneStep => last = None)
@@ -53,7 +54,7 @@ CmpLaws == last.op = "compare" =>
   /\ (last.out.kind = "ok" /\ last.out.val = 0 /\ last.a # last.b => Eq(DayTimeNs(last.a), DayTimeNs(last.b)))
 RoundLaws == last.op = "round" =>
   \* round(-d) = -round(d) with ceil/floor-type modes mirrored
-  LET m == DurRound(NegDur(last.a), last.o.lg, last.o.sm, last.o.inc, NegateMode(last.o.mode))
+  LET m == DurRound(NegDur(last.a), IF last.o.lg = "absent" THEN UnitMax(DefaultLargest(last.a), last.o.sm) ELSE last.o.lg, last.o.sm, last.o.inc, NegateMode(last.o.mode))
   IN IF last.out.kind = "ok" THEN m = Ok(NegDur(last.out.val)) ELSE m = last.out
 TotalLaws == last.op = "total" => (last.out.kind = "ok" =>
   /\ Eq(Mul(last.out.val.d, FromInt(1)), UnitNsBig(last.u))
